@@ -88,9 +88,13 @@ fn client_pin_case<const N: usize>() {
     let mut buffer = prefilled::<N>();
     resp.serialize(&mut buffer);
     post(&buffer, &body);
-    kani::cover!(1 + body.len == N);
-    kani::cover!(1 + body.len == N + 1);
-    kani::cover!(body.len == 1);
+    // bodies are 1 (no member) or 3..=9 bytes long: both outcomes must be reachable wherever they exist
+    if N >= 2 {
+        kani::cover!(1 + body.len <= N);
+    }
+    if N <= 9 {
+        kani::cover!(1 + body.len > N);
+    }
 }
 
 #[kani::proof]
